@@ -3,7 +3,7 @@ CONSTANTS
   MaxN = 3
   NameSet = {"a"}
   Prefixes = {"x", "y"}
-  Uris = {"u", "v"}
+  Uris = {"u", "u/"}
   Texts = {}
   Keys = {}
   MaxLevel = 99
